@@ -32,7 +32,8 @@ META = {
     "explanation": "One obligation per reachable while loop (variant found by CFG path analysis), per slot-table access "
                    "(range fact on every path), per recursive cycle (argument derives from the property tree), plus the "
                    "macro expansion cap. Necessary conditions of termination and of 'no internal error'; the time bound "
-                   "is not decided.",
+                   "is not decided."
+                   " Also: a census of every slot-table subscript (clamped range bounds / range facts / availability fact), window facts at the slot walk's head and in the milestone pre-pass, all-paths definition of the project end in the model builder, visited-set discipline for work lists that also grow, and a size bound on macro expansion.",
     "assumptions": ["the property tree (parent/children) is finite and acyclic", "for loops over finite containers terminate"],
 }
 
